@@ -17,6 +17,17 @@
 //! request mutation and over the inner service's responses (header flags x
 //! rcode x size class x target type x transport), every emitted response
 //! being verified by the reference client.
+//!
+//! Section "SIGNING ON THE USER'S BUILDER" signs messages that were made
+//! through the builder interface on every target type x name compressor
+//! (Vec, BytesMut, octseq::Array, bounded buffer, StreamTarget over both x
+//! none/Static/Tree/Hash), with the key name in every relation to the names
+//! of the message, through all five signing entry points, after histories of
+//! attempts refused for lack of room (push limit or capacity at every
+//! interesting size) followed by lifting/raising the limit or dropping
+//! records on the same builder. Refused => message unchanged; signed =>
+//! parses under the independent reader, MAC equals the reference, the other
+//! side accepts, the sequence goes on from the message that was sent.
 #![allow(clippy::too_many_arguments, clippy::type_complexity)]
 
 use std::collections::{BTreeMap, HashMap};
@@ -1504,6 +1515,23 @@ fn client_eval(
     now: u64,
     mutation: &str,
 ) -> (Cls, bool) {
+    let seq = rc.seq;
+    let replay = || client_replay(key, seq, req_presign, req_now, fudge, steps, msg, now);
+    client_eval_with(ctx, l, lib, rc, msg, now, mutation, &replay)
+}
+
+/// One transition of a client machine (real + reference) on one message; the
+/// caller says how the case is replayed.
+fn client_eval_with(
+    ctx: &Ctx,
+    l: &mut Local,
+    lib: &mut LibClient,
+    rc: &mut RefClient,
+    msg: &[u8],
+    now: u64,
+    mutation: &str,
+    replay: &dyn Fn() -> Value,
+) -> (Cls, bool) {
     l.evals += 1;
     l.transitions += 1;
     l.states += 1;
@@ -1516,7 +1544,6 @@ fn client_eval(
     } else {
         "answer-subsequent"
     };
-    let replay = || client_replay(key, seq, req_presign, req_now, fudge, steps, msg, now);
     let (exp, commit) = rc.expect(msg, now);
     l.ref_cls[ri][exp.primary as usize] += 1;
     let mut m = Message::from_octets(msg.to_vec()).expect("harness messages have a header");
@@ -4230,6 +4257,622 @@ fn run_key_misc(ctx: &Arc<Ctx>, g: &Glob) {
 }
 
 // =====================================================================
+// SIGNING ON THE USER'S BUILDER
+//   target type x name compressor of the message being signed x key name
+//   relative to the names of the message x message shape x the five signing
+//   entry points x histories of signing attempts that fail for lack of room
+//   (push limit / capacity of a bounded buffer) before one succeeds on the
+//   SAME builder (limit lifted or raised, additional section rewound,
+//   authority and additional section dropped).
+//
+//   Oracle: a failed attempt leaves the message octets (and the stream
+//   frame) exactly as they were; the message signed at last parses under the
+//   independent reader (pointers strictly backwards), its TSIG owner
+//   decompresses to the key name, its MAC equals the RFC 8945 reference over
+//   the octets the builder held before that attempt, and the other side
+//   (real machine judged by the reference machine) accepts it; a sequence
+//   goes on with the MAC of the message that was sent, not of one that
+//   was not.
+// =====================================================================
+
+use bytes::BytesMut;
+use domain::base::iana::{Class, Rtype};
+use domain::base::message_builder::{HashCompressor, StreamTarget, TreeCompressor};
+use domain::base::Ttl;
+use domain::rdata::Ns;
+use octseq::array::Array;
+use octseq::builder::ShortBuf;
+
+/// A buffer of a capacity chosen at run time (what `octseq::Array<N>` is for a
+/// capacity chosen at compile time): appends all or nothing.
+#[derive(Clone, Debug)]
+struct Bounded {
+    buf: Vec<u8>,
+    cap: usize,
+}
+impl OctetsBuilder for Bounded {
+    type AppendError = ShortBuf;
+    fn append_slice(&mut self, s: &[u8]) -> Result<(), Self::AppendError> {
+        if self.buf.len() + s.len() > self.cap {
+            return Err(ShortBuf);
+        }
+        self.buf.extend_from_slice(s);
+        Ok(())
+    }
+}
+impl Truncate for Bounded {
+    fn truncate(&mut self, len: usize) {
+        self.buf.truncate(len)
+    }
+}
+impl AsRef<[u8]> for Bounded {
+    fn as_ref(&self) -> &[u8] {
+        &self.buf
+    }
+}
+impl AsMut<[u8]> for Bounded {
+    fn as_mut(&mut self) -> &mut [u8] {
+        &mut self.buf
+    }
+}
+impl Composer for Bounded {}
+
+/// A target a user may hand to `MessageBuilder::from_target`.
+trait SignTarget: Composer + Sized {
+    /// `cap`: message capacity, for the targets whose capacity is chosen at run time.
+    fn fresh(cap: usize) -> Option<Self>;
+    /// Targets that frame the message: the frame as it would go out.
+    fn frame(&self) -> Option<Vec<u8>> {
+        None
+    }
+}
+impl SignTarget for Vec<u8> {
+    fn fresh(_: usize) -> Option<Self> {
+        Some(Vec::new())
+    }
+}
+impl SignTarget for BytesMut {
+    fn fresh(_: usize) -> Option<Self> {
+        Some(BytesMut::new())
+    }
+}
+impl SignTarget for Array<1024> {
+    fn fresh(_: usize) -> Option<Self> {
+        Some(Array::new())
+    }
+}
+impl SignTarget for Bounded {
+    fn fresh(cap: usize) -> Option<Self> {
+        Some(Bounded { buf: Vec::new(), cap })
+    }
+}
+impl SignTarget for StreamTarget<Vec<u8>> {
+    fn fresh(_: usize) -> Option<Self> {
+        Some(StreamTarget::new_vec())
+    }
+    fn frame(&self) -> Option<Vec<u8>> {
+        Some(self.as_stream_slice().to_vec())
+    }
+}
+impl SignTarget for StreamTarget<Bounded> {
+    fn fresh(cap: usize) -> Option<Self> {
+        StreamTarget::new(Bounded { buf: Vec::new(), cap: cap.saturating_add(2) }).ok()
+    }
+    fn frame(&self) -> Option<Vec<u8>> {
+        Some(self.as_stream_slice().to_vec())
+    }
+}
+impl<T: SignTarget> SignTarget for StaticCompressor<T> {
+    fn fresh(cap: usize) -> Option<Self> {
+        T::fresh(cap).map(StaticCompressor::new)
+    }
+    fn frame(&self) -> Option<Vec<u8>> {
+        self.as_target().frame()
+    }
+}
+impl<T: SignTarget> SignTarget for TreeCompressor<T> {
+    fn fresh(cap: usize) -> Option<Self> {
+        T::fresh(cap).map(TreeCompressor::new)
+    }
+    fn frame(&self) -> Option<Vec<u8>> {
+        self.as_target().frame()
+    }
+}
+impl<T: SignTarget> SignTarget for HashCompressor<T> {
+    fn fresh(cap: usize) -> Option<Self> {
+        T::fresh(cap).map(HashCompressor::new)
+    }
+    fn frame(&self) -> Option<Vec<u8>> {
+        self.as_target().frame()
+    }
+}
+
+const SIGN_TARGETS: [&str; 6] = [
+    "Vec<u8>",
+    "BytesMut",
+    "octseq::Array<1024>",
+    "bounded buffer (capacity chosen per case)",
+    "StreamTarget<Vec<u8>>",
+    "StreamTarget<bounded buffer>",
+];
+const SIGN_COMPS: [&str; 4] = ["no compressor", "StaticCompressor", "TreeCompressor", "HashCompressor"];
+const SIGN_OPS: [&str; 5] = [
+    "ClientTransaction::request",
+    "ClientSequence::request",
+    "ServerTransaction::answer",
+    "ServerSequence::answer (first)",
+    "ServerSequence::answer (subsequent)",
+];
+const SIGN_SHAPES: [&str; 3] = ["question only", "question + answer, authority (NS) and additional records", "question + OPT"];
+/// The names of the message built through the builder interface.
+const SIGN_QNAME: &str = "host.zone.example";
+const SIGN_ZONE: &str = "zone.example";
+const SIGN_NS: &str = "ns.zone.example";
+/// Key names by their relation to those names; "<alg>" is the algorithm name of the key.
+const SIGN_KEY_NAMES: [(&str, &str); 7] = [
+    ("tsig-key.other", "absent from the message, shares nothing"),
+    ("host.zone.example", "equal to the question name"),
+    ("key.zone.example", "shares a suffix with the names of the message"),
+    ("HOST.Zone.EXAMPLE", "differs from the question name in case only"),
+    ("ns.zone.example", "equal to the owner of the first additional record"),
+    ("example", "an ancestor of the names of the message"),
+    ("<alg>", "equal to the algorithm name"),
+];
+
+fn bounded_target(t: usize) -> bool {
+    t == 3 || t == 5
+}
+
+/// Kinds of steps of a history; every step is followed by a signing attempt.
+const ST_NONE: u8 = 0; // nothing (sign right away)
+const ST_LIMIT: u8 = 1; // set_push_limit(length of the message as first built + arg)
+const ST_CLEAR: u8 = 2; // clear_push_limit()
+const ST_REWIND: u8 = 3; // AdditionalBuilder::rewind()
+const ST_REOPEN: u8 = 4; // .answer().additional(): drops authority and additional records
+const STEP_NAMES: [&str; 5] = ["sign", "set_push_limit(len+arg), sign", "clear_push_limit, sign", "rewind additional, sign", "drop authority+additional, sign"];
+
+#[derive(Clone, Debug)]
+struct SignCase {
+    key: KeySpec,
+    target: usize,
+    comp: usize,
+    shape: usize,
+    op: usize,
+    /// capacity of a bounded target: length of the message as built + this
+    cap: Option<i64>,
+    steps: Vec<(u8, i64)>,
+}
+
+impl SignCase {
+    fn json(&self) -> Value {
+        json!({"kind": "sign-history", "key": self.key.json(), "target": self.target, "comp": self.comp, "shape": self.shape,
+               "op": self.op, "cap": self.cap, "steps": self.steps.iter().map(|s| json!([s.0, s.1])).collect::<Vec<_>>(),
+               "reading": {"target": SIGN_TARGETS[self.target], "compressor": SIGN_COMPS[self.comp], "shape": SIGN_SHAPES[self.shape], "entry point": SIGN_OPS[self.op],
+                           "steps": self.steps.iter().map(|s| STEP_NAMES[s.0 as usize]).collect::<Vec<_>>()}})
+    }
+    fn from_json(v: &Value) -> SignCase {
+        SignCase {
+            key: KeySpec::from_json(&v["key"]),
+            target: v["target"].as_u64().unwrap() as usize,
+            comp: v["comp"].as_u64().unwrap() as usize,
+            shape: v["shape"].as_u64().unwrap() as usize,
+            op: v["op"].as_u64().unwrap() as usize,
+            cap: v["cap"].as_i64(),
+            steps: v["steps"].as_array().unwrap().iter().map(|s| (s[0].as_u64().unwrap() as u8, s[1].as_i64().unwrap())).collect(),
+        }
+    }
+    fn role(&self) -> &'static str {
+        ["client-transaction", "client-sequence", "server", "server-sequence", "server-sequence"][self.op]
+    }
+    fn opname(&self) -> &'static str {
+        ["request", "request", "answer", "answer-first", "answer-subsequent"][self.op]
+    }
+}
+
+/// A message made through the builder interface, so that the compressor (if
+/// any) knows its names. `None`: it did not fit (bounded target).
+fn build_for_signing<T: SignTarget>(cap: usize, shape: usize, response: bool, id: u16) -> Option<AdditionalBuilder<T>> {
+    let name = |s: &str| Name::<Vec<u8>>::from_str(&format!("{s}.")).unwrap();
+    let (qn, zone, ns) = (name(SIGN_QNAME), name(SIGN_ZONE), name(SIGN_NS));
+    let mut mb = MessageBuilder::from_target(T::fresh(cap)?).ok()?;
+    mb.header_mut().set_id(id);
+    mb.header_mut().set_rd(true);
+    if response {
+        mb.header_mut().set_qr(true);
+        mb.header_mut().set_aa(true);
+    }
+    let mut q = mb.question();
+    q.push((&qn, Rtype::A)).ok()?;
+    Some(match shape {
+        1 => {
+            let mut an = q.answer();
+            an.push((&qn, Class::IN, Ttl::from_secs(300), A::from_octets(192, 0, 2, 1))).ok()?;
+            an.push((&qn, Class::IN, Ttl::from_secs(300), A::from_octets(192, 0, 2, 2))).ok()?;
+            let mut au = an.authority();
+            au.push((&zone, Class::IN, Ttl::from_secs(3600), Ns::new(ns.clone()))).ok()?;
+            let mut ad = au.additional();
+            ad.push((&ns, Class::IN, Ttl::from_secs(3600), A::from_octets(192, 0, 2, 53))).ok()?;
+            ad
+        }
+        2 => {
+            let mut ad = q.additional();
+            ad.opt(|o| {
+                o.set_udp_payload_size(1232);
+                Ok(())
+            })
+            .ok()?;
+            ad
+        }
+        _ => q.additional(),
+    })
+}
+
+/// Who signs. The server sequence is the caller's: it lives through the failed attempts.
+enum Signer<'a> {
+    ClientTx(&'a K),
+    ClientSeq(&'a K),
+    ServerTx(&'a ServerTransaction<K>),
+    ServerSeq(&'a mut ServerSequence<K>),
+}
+
+struct Signed {
+    /// message octets the builder held before the attempt that succeeded
+    presign: Vec<u8>,
+    signed: Vec<u8>,
+    now: u64,
+    client: Option<LibClient>,
+    failed: usize,
+}
+
+const SIGN_T: u64 = T0 + 10;
+
+/// Run the steps of `c` on one builder until a signing attempt succeeds.
+fn run_sign_history<T: SignTarget>(ctx: &Ctx, l: &mut Local, c: &SignCase, signer: &mut Signer) -> Option<Signed> {
+    let replay = || c.json();
+    let (role, op) = (c.role(), c.opname());
+    let response = c.op >= 2;
+    let id = 0x5150u16;
+    let len0 = match build_for_signing::<T>(65535, c.shape, response, id) {
+        Some(b) => b.as_slice().len(),
+        None => {
+            eprintln!("MACHINERY: the message to be signed cannot be built on {}", SIGN_TARGETS[c.target]);
+            std::process::exit(2);
+        }
+    };
+    let at = |d: i64| (len0 as i64 + d).max(0) as usize;
+    let mut b = match build_for_signing::<T>(c.cap.map(at).unwrap_or(65535), c.shape, response, id) {
+        Some(b) => b,
+        None => {
+            l.c("sign-history: message does not fit the bounded target (no case)");
+            return None;
+        }
+    };
+    let mut failed = 0usize;
+    for (i, &(kind, arg)) in c.steps.iter().enumerate() {
+        match kind {
+            ST_LIMIT => b.set_push_limit(at(arg)),
+            ST_CLEAR => b.clear_push_limit(),
+            ST_REWIND => b.rewind(),
+            ST_REOPEN => b = b.answer().additional(),
+            _ => {}
+        }
+        let before = b.as_slice().to_vec();
+        let frame_before = b.as_target().frame();
+        let now = SIGN_T + i as u64;
+        let t = Time48::from_u64(now);
+        l.transitions += 1;
+        l.states += 1;
+        let r = guard(|| match signer {
+            Signer::ClientTx(k) => ClientTransaction::request((*k).clone(), &mut b, t).map(|c| Some(LibClient::Tx(c))).map_err(|_| ()),
+            Signer::ClientSeq(k) => ClientSequence::request((*k).clone(), &mut b, t).map(|c| Some(LibClient::Seq(c))).map_err(|_| ()),
+            Signer::ServerTx(tx) => (*tx).clone().answer(&mut b, t).map(|_| None).map_err(|_| ()),
+            Signer::ServerSeq(sq) => sq.answer(&mut b, t).map(|_| None).map_err(|_| ()),
+        });
+        match r {
+            Err(p) => {
+                report_panic(ctx, role, op, "signing-on-the-user's-builder", &p, &replay);
+                return None;
+            }
+            Ok(Err(())) => {
+                failed += 1;
+                l.c("sign-history: attempt refused for lack of room");
+                if b.as_slice() != &before[..] || b.as_target().frame() != frame_before {
+                    violate(ctx, &format!("C11|{role}|{op}|signing-attempt-refused|message-in-the-builder-changed"),
+                        &format!("{role}.{op}: signing failed for lack of room but the builder holds {} where it held {}", hex(b.as_slice()), hex(&before)), &replay);
+                    return None;
+                }
+            }
+            Ok(Ok(client)) => {
+                let signed = b.as_slice().to_vec();
+                if let Some(f) = b.as_target().frame() {
+                    let mut want = (signed.len() as u16).to_be_bytes().to_vec();
+                    want.extend_from_slice(&signed);
+                    if f != want {
+                        violate(ctx, &format!("C11|{role}|{op}|signed-output|stream-frame-is-not-length+message"),
+                            &format!("{role}.{op}: stream frame {} for message {}", hex(&f), hex(&signed)), &replay);
+                        return None;
+                    }
+                }
+                return Some(Signed { presign: before, signed, now, client, failed });
+            }
+        }
+    }
+    // all steps used up without a signature
+    let last = c.steps.last().map(|s| s.0).unwrap_or(ST_NONE);
+    if c.cap.is_none() && (last == ST_CLEAR || c.steps.iter().all(|s| s.0 != ST_LIMIT)) {
+        violate(ctx, &format!("C11|{role}|{op}|signing-refused-although-there-is-room"),
+            &format!("{role}.{op}: no push limit, target {} far from full, still no signature after {failed} attempt(s)", SIGN_TARGETS[c.target]), &replay);
+    } else {
+        l.c("sign-history: no room to the end (no signature, nothing sent)");
+    }
+    None
+}
+
+fn sign_by_comp<B: SignTarget>(ctx: &Ctx, l: &mut Local, c: &SignCase, s: &mut Signer) -> Option<Signed> {
+    match c.comp {
+        0 => run_sign_history::<B>(ctx, l, c, s),
+        1 => run_sign_history::<StaticCompressor<B>>(ctx, l, c, s),
+        2 => run_sign_history::<TreeCompressor<B>>(ctx, l, c, s),
+        _ => run_sign_history::<HashCompressor<B>>(ctx, l, c, s),
+    }
+}
+
+fn sign_dispatch(ctx: &Ctx, l: &mut Local, c: &SignCase, s: &mut Signer) -> Option<Signed> {
+    match c.target {
+        0 => sign_by_comp::<Vec<u8>>(ctx, l, c, s),
+        1 => sign_by_comp::<BytesMut>(ctx, l, c, s),
+        2 => sign_by_comp::<Array<1024>>(ctx, l, c, s),
+        3 => sign_by_comp::<Bounded>(ctx, l, c, s),
+        4 => sign_by_comp::<StreamTarget<Vec<u8>>>(ctx, l, c, s),
+        _ => sign_by_comp::<StreamTarget<Bounded>>(ctx, l, c, s),
+    }
+}
+
+/// What exists before the signing under test: the key and, for the server
+/// entry points, the machines that verified an honest request (signed by the
+/// real client on a plain builder, checked against the reference).
+struct SignSetup {
+    k: K,
+    cs: Option<ClientScen>,
+    tx: Option<ServerTransaction<K>>,
+    sq: Option<ServerSequence<K>>,
+    /// MAC (as on the wire) digested before the answer under test
+    prior: Vec<u8>,
+}
+
+impl SignSetup {
+    fn new(ctx: &Ctx, l: &mut Local, kv: &KeySpec, op: usize) -> Option<SignSetup> {
+        let k = kv.lib().ok()?.ok()?;
+        if op < 2 {
+            return Some(SignSetup { k, cs: None, tx: None, sq: None, prior: Vec::new() });
+        }
+        let id = 0x5150u16;
+        let seq = op >= 3;
+        let (mut cs, req) = ClientScen::start(ctx, l, kv, seq, &shape(0, false, id, 0, 11), T0, 300)?;
+        let ssc = ServerScen::new(vec![kv.clone()], false, seq, T0, Vec::new(), false);
+        let out = eval_server(ctx, l, &ssc, &req, "honest", false);
+        let (_, reqmac) = out.acc?;
+        let mut su = SignSetup { k, cs: None, tx: out.tx, sq: out.sq, prior: reqmac };
+        if op == 4 {
+            // the first answer of the sequence: plain builder, as everywhere else
+            let presign = shape(1, true, id, 0, 12);
+            let mut b = builder_from(&presign);
+            let sq = su.sq.as_mut()?;
+            let replay = || json!({"kind": "sign-history-setup", "key": kv.json(), "op": op});
+            guard(|| sq.answer(&mut b, Time48::from_u64(T0 + 1)).ok()).ok()??;
+            let mac = check_signed_by_lib(ctx, "server-sequence", "answer-first", &kv.refkey(), &mac_prefix(&su.prior), None, &presign, b.as_slice(), false, T0 + 1, 300, &replay)?;
+            let (_, same) = cs.step(ctx, l, b.as_slice(), T0 + 2, "honest-library-server-sequence");
+            if !same {
+                return None;
+            }
+            su.prior = mac;
+        }
+        su.cs = Some(cs);
+        Some(su)
+    }
+}
+
+fn sign_history_case(ctx: &Ctx, l: &mut Local, c: &SignCase, su: &SignSetup) {
+    l.evals += 1;
+    let replay = || c.json();
+    let rk = c.key.refkey();
+    let (role, opname) = (c.role(), c.opname());
+    let mut sq = su.sq.clone();
+    let out = {
+        let mut signer = match c.op {
+            0 => Signer::ClientTx(&su.k),
+            1 => Signer::ClientSeq(&su.k),
+            2 => match su.tx.as_ref() {
+                Some(tx) => Signer::ServerTx(tx),
+                None => return,
+            },
+            _ => match sq.as_mut() {
+                Some(sq) => Signer::ServerSeq(sq),
+                None => return,
+            },
+        };
+        sign_dispatch(ctx, l, c, &mut signer)
+    };
+    let out = match out {
+        Some(o) => o,
+        None => return,
+    };
+    l.c(if out.failed == 0 { "sign-history: signed at the first attempt" } else { "sign-history: signed on the same builder after refused attempt(s)" });
+    let history = if out.failed == 0 { "first-attempt" } else { "later-attempt-on-the-same-builder" };
+    let op = format!("{opname}|{}|{history}", SIGN_COMPS[c.comp]);
+    // 1. well-formed for a reader that knows nothing of the library
+    match wire::read_message(&out.signed) {
+        Ok(m) if m.end == out.signed.len() => {}
+        r => {
+            violate(ctx, &format!("C11|{role}|{op}|signed-output|not-well-formed-for-an-independent-reader"),
+                &format!("{role}.{opname}: the signed message {} does not parse (names, pointers strictly backwards, counts, end): {:?}", hex(&out.signed), r.map(|m| m.end)), &replay);
+            return;
+        }
+    }
+    // 2. the TSIG record and its MAC against RFC 8945
+    let prefix = if c.op < 2 { Vec::new() } else { mac_prefix(&su.prior) };
+    let mac = match check_signed_by_lib(ctx, role, &op, &rk, &prefix, None, &out.presign, &out.signed, c.op == 4, out.now, 300, &replay) {
+        Some(m) => m,
+        None => return,
+    };
+    l.c("sign-history: MAC equals reference");
+    l.distinct.push(fnv(format!("sh{}|{}|{}|{}|{}|{:?}|{:?}", c.key.tag(), c.target, c.comp, c.shape, c.op, c.cap, c.steps).as_bytes()));
+    // 3. the other side
+    let id = get16(&out.signed, 0);
+    if c.op < 2 {
+        let seq = c.op == 1;
+        let ssc = ServerScen::new(vec![c.key.clone()], false, seq, out.now, shape(1, true, id, 0, 13), false);
+        let o = eval_server(ctx, l, &ssc, &out.signed, "honest(signed-on-the-user's-builder)", true);
+        if let (Some(ans), Some(mut lib)) = (o.answer, out.client) {
+            // the client machine handed out by the attempt that succeeded
+            let mut rc = RefClient::new(&rk, seq, &mac);
+            client_eval_with(ctx, l, &mut lib, &mut rc, &ans, out.now + 1, "honest(answer to a request signed on the user's builder)", &replay);
+        }
+    } else if let Some(cs) = su.cs.as_ref() {
+        let (mut lib, mut rc) = (cs.lib.clone(), cs.rc.clone());
+        let (_, same) = client_eval_with(ctx, l, &mut lib, &mut rc, &out.signed, out.now + 1, "honest(signed-on-the-user's-builder)", &replay);
+        if same && c.op >= 3 {
+            // the sequence goes on from the message that was sent
+            let presign = shape(1, true, id, 0, 14);
+            let mut b = builder_from(&presign);
+            let now = out.now + 2;
+            let sq = sq.as_mut().unwrap();
+            l.transitions += 1;
+            l.states += 1;
+            match guard(|| sq.answer(&mut b, Time48::from_u64(now)).map_err(|_| ())) {
+                Err(p) => report_panic(ctx, role, "answer-after", "signing-on-the-user's-builder", &p, &replay),
+                Ok(Err(())) => {
+                    violate(ctx, "C11|server-sequence|answer|push-error", "answer() on a plain builder failed", &replay);
+                }
+                Ok(Ok(())) => {
+                    let op2 = format!("answer-after-{opname}|{history}");
+                    if check_signed_by_lib(ctx, role, &op2, &rk, &mac_prefix(&mac), None, &presign, b.as_slice(), true, now, 300, &replay).is_some() {
+                        l.c("sign-history: next answer of the sequence equals reference");
+                        client_eval_with(ctx, l, &mut lib, &mut rc, b.as_slice(), now + 1, "honest(next answer of the sequence)", &replay);
+                    }
+                }
+            }
+        }
+    }
+}
+
+/// Amounts of room (octets beyond the message as built) worth a look: none, a
+/// pointer, the key name, the record without / with the key name, each +-1.
+fn room_menu(rk: &RefKey, all: bool) -> Vec<i64> {
+    let t = ref_tsig_rr_len(rk) as i64;
+    let n = wire::to_wire(&rk.name).len() as i64;
+    let mut v: Vec<i64> = if all { (0..=t + 2).collect() } else { vec![0, 2, n, t - n + 1, t - n + 2, t - n + 3, t - 1, t, t + 1] };
+    v.sort();
+    v.dedup();
+    v
+}
+
+fn sign_histories(rk: &RefKey, target: usize, shape: usize, quick: bool) -> Vec<(Option<i64>, Vec<(u8, i64)>)> {
+    // the full sweep for the keys with a full-length MAC (one record length per algorithm)
+    let menu = room_menu(rk, !quick && rk.sign == rk.alg.native());
+    let small = room_menu(rk, false);
+    let big = ref_tsig_rr_len(rk) as i64 + 64;
+    let mut v = vec![(None, vec![(ST_NONE, 0)])];
+    for &d in &menu {
+        v.push((None, vec![(ST_LIMIT, d), (ST_CLEAR, 0)]));
+        v.push((None, vec![(ST_LIMIT, d), (ST_LIMIT, big)]));
+        if shape != 0 {
+            v.push((None, vec![(ST_LIMIT, d), (ST_REWIND, 0), (ST_CLEAR, 0)]));
+        }
+        if shape == 1 {
+            v.push((None, vec![(ST_LIMIT, d), (ST_REOPEN, 0), (ST_CLEAR, 0)]));
+        }
+        if bounded_target(target) {
+            v.push((Some(d), vec![(ST_NONE, 0)]));
+            if shape != 0 {
+                v.push((Some(d), vec![(ST_NONE, 0), (ST_REWIND, 0)]));
+            }
+            if shape == 1 {
+                v.push((Some(d), vec![(ST_NONE, 0), (ST_REOPEN, 0)]));
+            }
+        }
+    }
+    if !quick {
+        for &d1 in &small {
+            for &d2 in &small {
+                if d1 != d2 {
+                    v.push((None, vec![(ST_LIMIT, d1), (ST_LIMIT, d2), (ST_CLEAR, 0)]));
+                    if shape != 0 {
+                        v.push((None, vec![(ST_LIMIT, d1), (ST_REWIND, 0), (ST_LIMIT, d2), (ST_CLEAR, 0)]));
+                    }
+                }
+            }
+        }
+    }
+    v
+}
+
+fn sign_keys(quick: bool) -> Vec<KeySpec> {
+    let mut v = Vec::new();
+    let algs: Vec<(Alg, Option<usize>)> = if quick {
+        vec![(Alg::Sha256, None)]
+    } else {
+        ALGS.iter().flat_map(|&a| [(a, None), (a, Some(a.floor()))]).collect()
+    };
+    for (alg, sign) in algs {
+        for (name, _) in SIGN_KEY_NAMES {
+            let name = if name == "<alg>" { String::from_utf8(alg.label().to_vec()).unwrap() } else { name.to_string() };
+            v.push(KeySpec { alg, secret: SECRET.to_vec(), name, min: sign, sign });
+        }
+    }
+    v
+}
+
+fn run_sign_histories(ctx: &Arc<Ctx>, g: &Glob, wd: &Watchdog) -> Value {
+    let quick = ctx.quick();
+    let mut jobs = Vec::new();
+    for kv in sign_keys(quick) {
+        for op in 0..SIGN_OPS.len() {
+            for target in 0..SIGN_TARGETS.len() {
+                jobs.push((kv.clone(), op, target));
+            }
+        }
+    }
+    let cases = AtomicU64::new(0);
+    jobs.par_iter().for_each(|(kv, op, target)| {
+        wd.enter(|| json!({"kind": "job", "runner": "sign-histories", "key": kv.json(), "op": op, "target": target}));
+        let mut l = Local::default();
+        if let Some(su) = SignSetup::new(ctx, &mut l, kv, *op) {
+            let rk = kv.refkey();
+            for comp in 0..SIGN_COMPS.len() {
+                for shape in 0..SIGN_SHAPES.len() {
+                    for (cap, steps) in sign_histories(&rk, *target, shape, quick) {
+                        let c = SignCase { key: kv.clone(), target: *target, comp, shape, op: *op, cap, steps };
+                        sign_history_case(ctx, &mut l, &c, &su);
+                        cases.fetch_add(1, AO::Relaxed);
+                    }
+                }
+            }
+        } else {
+            l.c("sign-history: setup did not agree with the reference (reported there)");
+        }
+        g.merge(l);
+        wd.leave();
+    });
+    g_sample(|| json!({"runner": "sign-histories", "example": SignCase { key: sign_keys(true)[2].clone(), target: 4, comp: 2, shape: 1, op: 3, cap: None, steps: vec![(ST_LIMIT, 2), (ST_CLEAR, 0)] }.json()}));
+    json!({
+        "cases": cases.load(AO::Relaxed),
+        "targets": SIGN_TARGETS,
+        "compressors": SIGN_COMPS,
+        "entry_points": SIGN_OPS,
+        "message_shapes (built through the builder interface; names host.zone.example, zone.example, ns.zone.example)": SIGN_SHAPES,
+        "key_names": SIGN_KEY_NAMES.iter().map(|(n, w)| format!("{n}: {w}")).collect::<Vec<_>>(),
+        "keys": if quick { "hmac-sha256, full-length MAC" } else { "4 algorithms x {full-length, floor-length} MAC" },
+        "room": if quick { "push limit / capacity = message length + {0, 2, N, T-N+1, T-N+2, T-N+3, T-1, T, T+1} (T uncompressed TSIG record length, N key name length)" } else { "push limit / capacity = message length + every value 0..=T+2 for the keys with a full-length MAC, the quick menu for the truncating keys" },
+        "histories": if quick {
+            "sign; limit, sign, then {clear limit | raise limit | rewind additional section, sign, clear limit | drop authority+additional, sign, clear limit}, sign; bounded targets also: capacity, sign, then {rewind | drop sections}, sign. Every attempt at its own time; the first success ends the history"
+        } else {
+            "as quick, plus two limits in a row (every ordered pair of the quick menu), with and without a rewind in between"
+        },
+    })
+}
+
+// =====================================================================
 // REPLAY AND MAIN
 // =====================================================================
 
@@ -4282,6 +4925,12 @@ fn run_replay(ctx: &Arc<Ctx>, path: &str) -> ! {
         }
         "transport-client" => {
             transport_case(ctx, &mut l, &TransportCase::from_json(case));
+        }
+        "sign-history" => {
+            let c = SignCase::from_json(case);
+            if let Some(su) = SignSetup::new(ctx, &mut l, &c.key, c.op) {
+                sign_history_case(ctx, &mut l, &c, &su);
+            }
         }
         "timesweep" => {
             timesweep(ctx, &mut l, Alg::from_idx(case["alg"].as_u64().unwrap() as usize), case["fudge"].as_u64().unwrap() as u16, case["tb"].as_u64().unwrap());
@@ -4356,6 +5005,7 @@ fn main() {
     let tinfo = run_client_transport(&ctx, &g, &wd);
     let minfo = run_middleware(&ctx, &g, &wd);
     let rinfo = run_middleware_responses(&ctx, &g, &wd);
+    let sinfo = run_sign_histories(&ctx, &g, &wd);
 
     let quick = ctx.quick();
     let transitions = g.transitions.load(AO::Relaxed);
@@ -4378,7 +5028,7 @@ fn main() {
             "traces_validated_against_impl": transitions,
             "evaluations": g.stats.evals(),
             "distinct_nontrivial": g.stats.distinct_count(),
-            "rule": "distinct = hash of (scenario, mutation or pattern) for every case in which a real TSIG state machine was stepped on a message the reference could place a verdict on; trivial cases (machinery self-tests) are not counted",
+            "rule": "distinct = hash of (scenario, mutation or pattern) for every case in which a real TSIG state machine was stepped on a message the reference could place a verdict on; signing on the user's builder: one per (key, target, compressor, shape, entry point, history) that ended in a signature equal to the reference; trivial cases (machinery self-tests) are not counted",
             "exhaustive": true,
             "bounds": {
                 "tier": if quick { "quick" } else { "thorough" },
@@ -4397,6 +5047,7 @@ fn main() {
                 "client_transport(net::client::tsig)": tinfo,
                 "server_middleware(TsigMiddlewareSvc)": minfo,
                 "server_middleware_inner_responses": rinfo,
+                "signing_on_the_user's_builder": sinfo,
             },
             "verdict_histogram_library": g.hist(&g.lib_cls),
             "verdict_histogram_reference": g.hist(&g.ref_cls),
@@ -4419,6 +5070,7 @@ fn main() {
             "through the two transport wrappers the structural mutations that re-sign at the fudge edge and the two other-data mutations (a recorded finding at the state-machine level) are left out",
             "a request composed several times by the upstream: the client is expected to hold the state of the composition made last (those octets went out last); an answer to an earlier composition is judged by the reference client holding the last request MAC (accepted only if the octets were identical)",
             "inner-response product of the middleware: the header flags other than TC and RCODE of the RFC 8945 5.3 replacement response are not prescribed; it must verify, keep ID/QR/opcode/question, carry nothing but the question and the TSIG",
+            "signing on the user's builder: which limit is the first to leave room is the library's business (only 'refused => message unchanged' and 'signed => verifies, MAC equals reference' are checked); whether and how far the TSIG owner name is compressed is left open (it must decompress, by backward pointers only, to the key name compared without case); the algorithm name must be uncompressed (RFC 8945 4.2); a history on a bounded buffer may end without a signature",
             "the middleware is driven with services that announce a multi-response answer (BeginTransaction attached to the first response, or as feedback-only items like the XFR service); several responses without that announcement are a contract violation of the service and are not driven",
         ],
     );
